@@ -84,3 +84,9 @@ def abs_c(t, C=None):
 def sqrt_witness_free(terms):
     """R-semantics helper: nothing to do, the emitter introduces sqrt witnesses itself."""
     return terms
+
+
+def nokind(pc, var='kind'):
+    """drop the discriminant atoms of the symbolic confidence (needed when paths of different kinds are combined)"""
+    kv = T.var(var, 'i')
+    return [c for c in pc if not T.contains(c, lambda t: t == kv)]
